@@ -157,6 +157,132 @@ def _ls(xs):
     return "[" + ", ".join(_s(x) for x in xs) + "]"
 
 
+# ---- the tests that decide whether an OPTIONAL part is read / written -------------------------------------------------
+def _has_io(nodes, kind):
+    for b in nodes:
+        for n in ast.walk(b):
+            if isinstance(n, ast.Call):
+                nm = getattr(n.func, "id", None) or getattr(n.func, "attr", None) or ""
+                if kind == "r" and (nm.startswith("read") or nm == "frombytes"):
+                    return True
+                if kind == "w" and (nm.startswith("write") or nm == "tobytes"):
+                    return True
+    return False
+
+
+def _class_fields(cls):
+    """names bound in the class body (attr.ib attributes)"""
+    out = set()
+    for st in cls.body:
+        if isinstance(st, ast.Assign):
+            out |= {t.id for t in st.targets if isinstance(t, ast.Name)}
+        elif isinstance(st, ast.AnnAssign) and isinstance(st.target, ast.Name):
+            out.add(st.target.id)
+    return out
+
+
+def _atoms(test):
+    """the atoms of a test (operands of and / or / not), `X is not None` and `X is None` reduced to `X`"""
+    if isinstance(test, ast.BoolOp):
+        return [a for v in test.values for a in _atoms(v)]
+    if isinstance(test, ast.UnaryOp) and isinstance(test.op, ast.Not):
+        return _atoms(test.operand)
+    if isinstance(test, ast.Compare) and len(test.ops) == 1 and isinstance(test.ops[0], (ast.Is, ast.IsNot)) \
+            and isinstance(test.comparators[0], ast.Constant) and test.comparators[0].value is None:
+        return _atoms(test.left)
+    return [test]
+
+
+def _root(node):
+    while isinstance(node, (ast.Attribute, ast.Subscript)):
+        node = node.value
+    if isinstance(node, ast.Call):
+        return None
+    return node.id if isinstance(node, ast.Name) else None
+
+
+def _field_tests(fns, kind, fields):
+    """In source order, the atoms of every `if` / `while` / conditional-expression test that guards a read (kind 'r') or a
+    write ('w') and that speaks about the STORED FIELDS of the class only (`flags.parameters_applied`, `version >= 2`,
+    `real_flags`): every name in the atom is a field of the class, `self.`/`cls.` dropped. Tests on what is left in the
+    stream (`is_readable`, `length >= 36`) or on locals are not field tests."""
+    out = []
+    for fn in fns:
+        local_alias = {}
+        for n in ast.walk(fn):
+            if isinstance(n, (ast.If, ast.While)):
+                guarded = _has_io(n.body, kind) or (isinstance(n, ast.If) and _has_io(n.orelse, kind))
+                test = n.test
+            elif isinstance(n, ast.IfExp):
+                guarded = _has_io([n.body], kind) or _has_io([n.orelse], kind)
+                test = n.test
+            else:
+                continue
+            if not guarded:
+                continue
+            for a in _atoms(test):
+                try:
+                    a = ast.parse(_norm(ast.unparse(a)), mode="eval").body      # `self.` / `cls.` dropped
+                except SyntaxError:
+                    continue
+                names = {x.id for x in ast.walk(a) if isinstance(x, ast.Name)} - {"self", "cls"}
+                consts = {x.id for x in ast.walk(a) if isinstance(x, ast.Name) and x.id[:1].isupper()}
+                if not names or not (names - consts) <= fields:
+                    continue
+                if any(isinstance(x, ast.Call) for x in ast.walk(a)):
+                    continue
+                out.append(((n.lineno, n.col_offset), _norm(ast.unparse(a))))
+    seen, res = set(), []
+    for _, t in sorted(out):
+        if t not in seen:
+            seen.add(t)
+            res.append(t)
+    return res
+
+
+def guard_tables(notes):
+    root = core.REPO / "src" / PKG
+    rows = []
+    for f in sorted(root.glob("*.py")):
+        if f.stem in SKIP_MODULES:
+            continue
+        try:
+            tree = ast.parse(f.read_text())
+        except Exception as e:  # noqa
+            notes.append(f"{f.stem}: source not parsable ({type(e).__name__})")
+            continue
+        for c in tree.body:
+            if not isinstance(c, ast.ClassDef):
+                continue
+            fns = [m for m in c.body if isinstance(m, ast.FunctionDef)]
+            fields = _class_fields(c)
+            r = _field_tests([m for m in fns if READ_RE.match(m.name)], "r", fields)
+            w = _field_tests([m for m in fns if WRITE_RE.match(m.name)], "w", fields)
+            if r or w:
+                rows.append((f.stem + "." + c.name, r, w))
+    return rows
+
+
+def gen_guards(ctx):
+    notes: list = []
+    try:
+        rows = guard_tables(notes)
+    except Exception as e:  # noqa
+        notes.append(f"guard extraction failed: {type(e).__name__}: {e}")
+        rows = [("<extractor>", ["<failed>"], [])]
+    P = ["namespace PsdVerif.Generated.C02Guards\n",
+         "/-- (class, field tests that guard a READ of an optional part, field tests that guard a WRITE), atoms of the\n"
+         "`if`/`while`/conditional tests of the reader / writer methods that mention stored fields of the class only;\n"
+         "`X is (not) None` is `X`; `self.`/`cls.` dropped; source order, duplicates removed -/\n"
+         "def rows : List (String × List String × List String) := [\n  "
+         + ",\n  ".join(f"({_s(c)}, {_ls(r)}, {_ls(w)})" for c, r, w in rows) + "\n]\n",
+         "end PsdVerif.Generated.C02Guards\n"]
+    for n in notes:
+        ctx.notes.append("extract_c02 guards: " + n)
+    ctx.write_generated("C02Guards", "".join(P))
+    return {"rows": len(rows), "table": rows}
+
+
 def gen_formats(ctx):
     notes: list = []
     try:
